@@ -565,6 +565,36 @@ func init() {
 			return c03Run(env, strings.Join(lines, "\n"), modes)
 		},
 	}
+	// rule files far longer than any realistic one: the rules that follow
+	// megabytes of comments or blank lines count like all others
+	long := &fw.Phase{
+		Name: "very-long-rule-files", Chroot: true, Exhaustive: true,
+		N: func(tier string) int {
+			if tier == "quick" {
+				return 8
+			}
+			return 20
+		},
+		Run: func(env *fw.Env, idx int) fw.Result {
+			sizes := []int{70 << 10, 1<<20 + 4096, 1<<20 + 4096, 4<<20 + 4096, 17 << 20}
+			size := sizes[idx%len(sizes)]
+			padLine := "# " + strings.Repeat("padding ", 120)
+			if (idx/len(sizes))%2 == 1 {
+				padLine = ""
+			}
+			var sb strings.Builder
+			early := core[(idx*7)%len(core)]
+			sb.WriteString(early + "\n")
+			for sb.Len() < size {
+				sb.WriteString(padLine + "\n")
+			}
+			late := []string{"*.tf", "!a/x.tf", core[(idx*11+3)%len(core)], "!" + early, ".terraform/", "!.terraform/modules/"}
+			sb.WriteString(strings.Join(late[:2+idx%5], "\n"))
+			res := c03Run(env, sb.String(), []string{"P", "PB", "PD", "PDB"}[idx%4])
+			res.Case = map[string]interface{}{"first_rule": early, "padding_bytes": size, "padding_line": padLine != "", "last_rules": late[:2+idx%5]}
+			return res
+		},
+	}
 	noFile := &fw.Phase{
 		Name: "no-usable-rule-file-default-rules-only", Chroot: true, Exhaustive: true,
 		N: func(string) int { return 3 },
@@ -577,10 +607,10 @@ func init() {
 	fw.Register(&fw.Property{
 		ID:    "C03",
 		Level: "exploration",
-		Rule: "a fixed universe of file paths (thorough: 323 paths of depth <=3 over directory names {a,b,ab,.terraform,modules,.git} and file names {a.b,a+b,x.tf,aab,c,a,b,ab}; quick: a 106-path subset) is shipped under generated rule files: every single rule over 19 segment patterns (lit, *, ?, a*, *b, [ab], *.tf, **, ...) of 1-2 segments (+ selected 3) x {floating, anchored} x {plain, negated} x {file, dir}; all ordered pairs of a 40-rule core (quick) / 60-rule core (thorough) and all ordered triples of a 25-rule core + PRNG files of 3-7 lines with comments, blanks, padding, CRLF (thorough); each file ends with LF, CR LF or no terminator depending on its text; " +
+		Rule: "a fixed universe of file paths (thorough: 323 paths of depth <=3 over directory names {a,b,ab,.terraform,modules,.git} and file names {a.b,a+b,x.tf,aab,c,a,b,ab}; quick: a 106-path subset) is shipped under generated rule files: every single rule over 19 segment patterns (lit, *, ?, a*, *b, [ab], *.tf, **, ...) of 1-2 segments (+ selected 3) x {floating, anchored} x {plain, negated} x {file, dir}; all ordered pairs of a 40-rule core (quick) / 60-rule core (thorough) and all ordered triples of a 25-rule core + PRNG files of 3-7 lines with comments, blanks, padding, CRLF (thorough) + 8 (quick) / 20 (thorough) rule files with 70 KiB to 17 MiB of comment or blank lines between their first and their last rules; each file ends with LF, CR LF or no terminator depending on its text; " +
 			"each through Pack with ignore on, Pack with ignore off, Pack through a dereferenced external directory (archive paths ext/...), and a one-package bundle build. The set of shipped files must equal the set the reference matcher includes. " +
 			"non-trivial = the rule file flips the verdict of >=1 path relative to the default rules; distinct = rule file text x modes",
 		Assumptions: []string{"ref/glob.go is the documented rule language; directory entries are not judged, only files by their own path", "patterns whose meaning the documentation does not fix (backslash escapes, ** glued to other characters, unterminated [) are left to C19"},
-		Phases:      []*fw.Phase{noFile, single, pairs, restated, triples, random},
+		Phases:      []*fw.Phase{noFile, single, pairs, restated, triples, random, long},
 	})
 }
